@@ -26,7 +26,7 @@ func init() {
 		Run:        runC08,
 		Prefix:     c08Prefix,
 		Assumptions: []string{
-			"well-formedness as stated by the property: targets exist, _catch defined, flags in range, no self-move, every move cycle passes a HALT; additionally _catch contains no LOAD; one run in 80 of the generated kind is a two-node application whose nodes descend into each other, driven to and beyond 128 stack entries",
+			"well-formedness as stated by the property: targets exist, _catch defined, flags in range, no self-move, every move cycle passes a HALT; one run in 80 of the generated kind is a two-node application whose nodes descend into each other, driven to and beyond 128 stack entries",
 			"panics of the harness' own stubs are infrastructure errors, not violations",
 		},
 		Real:       append(append([]string{}, realAll...), "db/fs (compiled against the simulated os)", "db/postgres", "asm (assembling the examples)"),
@@ -105,6 +105,7 @@ func runC08(c *core.Ctx) *core.Outcome {
 		p := fullProfile(t, cfg.FlagCount)
 		p.UpAtRoot = t.Chance(1, 3)
 		p.BigValues = t.Chance(1, 10)
+		p.CatchLoad = true
 		if t.Chance(1, 80) {
 			// a client that keeps descending: nothing in the property bounds the depth of a well-formed application
 			a = deepApp(t)
